@@ -121,12 +121,22 @@ CLAIMS['C11'] = dict(
           'resets column to 1, anything else increments column, and by induction after k steps the reported line/column/offset are the '
           'true ones (columns count bytes); Position::from reports them. (b) string literals: the real scanner decodes exactly the '
           'documented escapes and preserves every other byte, including bytes >= 0x80, and stops at the first unescaped quote; terminates. '
-          'Token recognisers capturing the position before consuming, the ordered alternation (longest operator), and whitespace/comment '
-          'insensitivity are NOT covered.'),
+          '(c) the real tokenizer, function by function with the abortable_parser macros taken verbatim from the pinned dependency: '
+          'whitespace consumes exactly the maximal run of space / tab / LF / VT / FF / CR; comment is `//` up to the first LF, CRLF or end of '
+          'input (a lone CR is comment text); each of the 31 operator / punctuation recognisers succeeds iff the input starts with its text, the 19 '
+          'keyword recognisers additionally need a following separator; digits / barewords take the maximal run; every token carries its exact text '
+          'and its TRUE position (captured before consuming); token() never aborts, makes progress, recognises WS / COMMENT / END wherever they '
+          'start, and wherever the input starts with a two-character operator (== => >= <= .. :: && || %% != !~) the token is that operator; '
+          'tokenize() terminates and its output is the non-WS non-COMMENT subsequence of a token tiling of the whole input, in order, followed by '
+          'exactly one END token at the final position; with a comment map, consecutive comment lines are grouped in order under the line of '
+          'their last comment and nothing is overwritten. NOT covered deductively: the text decoded by strtok beyond shape (b covers the '
+          'scanner), layout insensitivity as a statement about PARSE results (bounded stand-ins).'),
     design_ref='DESIGN.md §5 C11',
     note=('Trusted: Verus/Z3, vstd::utf8; a str is at most isize::MAX bytes; String::from_utf8 spec; StrIter::seek (unused by ucg) breaks '
-          'the representation invariant and is excluded.'),
-    technique='Verus contracts + induction lemma on extracted StrIter/OffsetStrIter and escapequoted',
+          'the representation invariant and is excluded; StrIter::span models str::index(Range) from the std docs; the four looping '
+          'abortable_parser macros (text_token!, until!, consume_all!, repeat!) are rewritten for Verus (indexed loop, closure taking the '
+          'iterator by value) - listed as extraction drops; units are linked by shared spec functions (opaque_body of whitespace/comment/token).'),
+    technique='Verus contracts + induction lemma on extracted StrIter/OffsetStrIter, escapequoted, every token recogniser, token and tokenize',
 )
 CLAIMS['C13'] = dict(
     text=('DECIDED at collector + verdict + directory-walk level: the collector\'s success flag is the AND of all recorded entries, its '
